@@ -1,8 +1,22 @@
 import CwPlus.Driver.Common
+import CwPlus.Driver.Cw20
 import CwPlus.Model.Ics20
+import CwPlus.Model.Ics20Wire
 /-!
 Scenario `ics20`: op-line parser, observation renderer and property monitors
 (C11, C12, C18) for the cw20-ics20 model (app mode: contract + bank + two cw20 tokens).
+
+Wire format (Base/Json.lean, Model/Ics20Wire.lean): an `ibc recv` line may carry `data=<hex>`, the exact bytes of
+`IbcPacket.data`; they are decoded by `Json.decodePacketBytes` here (undecodable = the `raw=1` branch of old
+lines, now a computed fact) and the printed fields `amt= denom= snd=` are then ignored (`rcv=` still carries the
+result of `addr_validate` on the receiver).  An `ibc ack` line may carry `ackdata=<hex>`, the exact bytes of the
+acknowledgement (decoded by `Json.decodeAckBytes`; without it `ok=1|0|raw` as before).  Outcome lines get
+`pkt=<hex>` (the data of every emitted `IbcMsg::SendPacket`, `;`-separated; the model renders
+`Json.encodePacketBytes` of its packet) and `ackraw=<hex>` (the acknowledgement bytes; the model renders
+`ack_success()` exactly, and nothing for an error acknowledgement, whose text it does not know: those bytes are
+checked by the monitor `C12/ack-wire-format` — they must decode, with `Json.decodeAckBytes`, to an error
+acknowledgement whose canonical encoding they are).  Free text (`to=`, `memo=`, the receiver / memo inside
+`sent=`, `rcv=` / `memo=` of ack and timeout lines) is percent-encoded (`Cw20.textEnc`).
 -/
 -- SCENARIO ics20 Ics20.scen
 -- SCENARIO ics20wide Ics20.scen
@@ -25,8 +39,7 @@ structure MState where
 
 def addrArg (s : String) : AddrArg := let p := parseAddr s; ⟨p.1, p.2⟩
 
-def parseDenom (s : String) : Denom :=
-  if s.startsWith "cw20:" then .cw20 (s.drop 5).toString else .native s
+def parseDenom (s : String) : Denom := Ics20Wire.parseDenom s
 
 /-- `a|b|c` -/
 def bar (s : String) : List String := s.splitOn "|"
@@ -56,24 +69,45 @@ def parseVersion (s : String) : Version :=
     | _ => ⟨0, 0, 0, pre⟩
   | [] => ⟨0, 0, 0, none⟩
 
+/-- free text of an op line (`to=`, `memo=`, …) is percent-encoded -/
+def txt (s : String) : String := Cw20.textDec s
+
 def parseTransferMsg (a : Args) : TransferMsg :=
-  ⟨a.str "chan", a.str "to", a.optNat "timeout", a.optStr "memo"⟩
+  ⟨a.str "chan", txt (a.str "to"), a.optNat "timeout", (a.optStr "memo").map txt⟩
 
 /-- `splitn(3, '/')` of the voucher denom -/
-def parseVoucher (s : String) : Option (String × String × Denom) :=
-  match s.splitOn "/" with
-  | p :: c :: r :: rest => some (p, c, parseDenom ("/".intercalate (r :: rest)))
-  | _ => none
+def parseVoucher (s : String) : Option (String × String × Denom) := Ics20Wire.splitVoucher s
+
+/-- `data=<hex>`: the bytes of `IbcPacket.data` (`none`: no such argument; hex that does not parse is the empty
+payload followed by nothing decodable: `some none`) -/
+def dataArg (a : Args) (k : String) : Option (Option Json.Bytes) := (a.get k).map Json.ofHex
 
 def parsePacketIn (a : Args) : PacketIn :=
-  let raw := (a.get "raw").isSome
-  { srcPort := a.str "sport", srcChan := a.str "schan", destChan := a.str "chan",
-    amount := if raw then none else some (a.nat "amt"),
-    voucher := if raw then none else parseVoucher (a.str "denom"),
-    receiver := (parseAddr (a.str "rcv")).2, sender := a.str "snd" }
+  match dataArg a "data" with
+  | some (some bytes) => Ics20Wire.packetInOfData (a.str "sport") (a.str "schan") (a.str "chan") bytes
+  | some none =>
+    { srcPort := a.str "sport", srcChan := a.str "schan", destChan := a.str "chan", amount := none, voucher := none,
+      receiver := "", sender := "" }
+  | none =>
+    let raw := (a.get "raw").isSome
+    { srcPort := a.str "sport", srcChan := a.str "schan", destChan := a.str "chan",
+      amount := if raw then none else some (a.nat "amt"),
+      voucher := if raw then none else parseVoucher (a.str "denom"),
+      receiver := (parseAddr (a.str "rcv")).2, sender := a.str "snd" }
+
+/-- What an `ibc recv` line says the packet is, for the monitors: `(amount, voucher denom, receiver)`;
+`none` = the data does not decode (`data=` present: decided by `Json.decodePacketBytes`; old lines: `raw=1`). -/
+def recvView (a : Args) : Option (Nat × String × String) :=
+  match dataArg a "data" with
+  | some (some bytes) =>
+    match Json.decodePacketBytes bytes with
+    | .ok p => some (p.amount, p.denom, p.receiver)
+    | .error _ => none
+  | some none => none
+  | none => if (a.get "raw").isSome then none else some (a.nat "amt", a.str "denom", (parseAddr (a.str "rcv")).2)
 
 def parseFlight (a : Args) : String × Packet :=
-  (a.str "chan", ⟨a.nat "amt", parseDenom (a.str "denom"), a.str "rcv", (parseAddr (a.str "snd")).2, a.optStr "memo"⟩)
+  (a.str "chan", ⟨a.nat "amt", parseDenom (a.str "denom"), txt (a.str "rcv"), (parseAddr (a.str "snd")).2, (a.optStr "memo").map txt⟩)
 
 def renderAck : Option Ack → String
   | none => "-"
@@ -85,7 +119,7 @@ def slashEnc (d : String) : String := d.replace "/" "~"
 def slashDec (d : String) : String := d.replace "~" "/"
 
 def renderSend (o : SendOut) : String :=
-  s!"{o.channel}/{slashEnc o.packet.denom.render}/{o.packet.amount}/{o.packet.sender}/{o.packet.receiver}/{optStrStr o.packet.memo}/{o.timeout}"
+  s!"{o.channel}/{slashEnc o.packet.denom.render}/{o.packet.amount}/{o.packet.sender}/{Cw20.textEnc o.packet.receiver}/{Cw20.optTextEnc o.packet.memo}/{o.timeout}"
 
 def renderSub (s : SubMsg) : String :=
   -- the numeric reply id is private to the contract and not compared (the harness routes replies by the code's own id)
@@ -94,7 +128,15 @@ def renderSub (s : SubMsg) : String :=
 def renderOutcome (o : Outcome) : Args :=
   [("ack", renderAck o.ack),
    ("sent", if o.sent.isEmpty then "-" else ";".intercalate (o.sent.map renderSend)),
-   ("sub", match o.sub with | some s => renderSub s | none => "-")]
+   ("sub", match o.sub with | some s => renderSub s | none => "-"),
+   -- the bytes of every emitted packet
+   ("pkt", if o.sent.isEmpty then "-" else ";".intercalate (o.sent.map fun x => Json.toHex (Ics20Wire.packetData x.packet)))] ++
+  -- the acknowledgement bytes (an error acknowledgement's text is not modelled: not rendered, see `C12/ack-wire-format`)
+  (match o.ack with
+   | none => [("ackraw", "-")]
+   | some a => match Ics20Wire.ackData a with
+     | some b => [("ackraw", Json.toHex b)]
+     | none => [])
 
 /-- The default counterparty channel of the harness: ids are numbered independently per chain, so our `channel-0 ↔` their
 `channel-1`, our `channel-1 ↔` their `channel-2` (the other side's id of one channel is the local id of another);
@@ -291,7 +333,10 @@ def stepOp (m : MState) (toks : List String) : MState × StepResult :=
     | "recv" => runOp m kind (.recv (parsePacketIn a) (parseAddr (a.str "rcv")).1 tv fail)
     | "ack" =>
       let f := parseFlight a
-      let ok := match a.str "ok" with | "1" => some true | "0" => some false | _ => none
+      let ok := match dataArg a "ackdata" with
+        | some (some bytes) => Ics20Wire.ackOkOfData bytes
+        | some none => none
+        | none => match a.str "ok" with | "1" => some true | "0" => some false | _ => none
       runOp m kind (.ack f.1 (some f.2) ok (parseAddr (a.str "snd")).1 tv fail)
     | "timeout" =>
       let f := parseFlight a
@@ -426,7 +471,12 @@ def monitorOp (mu : Mon) (prev : Args) (toks : List String) (implOk : Bool) (out
                   failed := [], redeemed := [], paidOut := [], solvent0 := solvent }
       else mu
     let fresh := isInst || !mu.inited
-    let amt := a.nat "amt"
+    -- an incoming packet as the line states it (`data=`: decoded here)
+    let view : Option (Nat × String × String) := if kind == "ibc.recv" then recvView a else none
+    let undec := kind == "ibc.recv" && view.isNone
+    let amt := match view with | some v => v.1 | none => a.nat "amt"
+    let rdenom := match view with | some v => v.2.1 | none => a.str "denom"
+    let rrcv := match view with | some v => v.2.2 | none => (parseAddr (a.str "rcv")).2
     let ackS := out.str "ack"
     -- the packet emitted by an accepted transfer: chan/denom/amt/snd/rcv/memo/timeout
     let sentL := if out.str "sent" == "-" || out.str "sent" == "" then [] else (out.str "sent").splitOn ";"
@@ -447,7 +497,7 @@ def monitorOp (mu : Mon) (prev : Args) (toks : List String) (implOk : Bool) (out
           let o0 := obsOut prev k.1 k.2; let o1 := obsOut cur k.1 k.2
           if o1 > o0 then { mu with escrowed := mu.escrowed.add k (o1 - o0), totalSent := mu.totalSent.add k (o1 - o0) } else mu) mu
       else if kind == "ibc.recv" && ackS == "success" then
-        match parseVoucher (a.str "denom") with
+        match parseVoucher rdenom with
         | some (_, _, d) =>
           let k := (a.str "chan", d.render)
           { mu with redeemed := mu.redeemed.add k amt, paidOut := mu.paidOut.add k amt }
@@ -474,8 +524,8 @@ def monitorOp (mu : Mon) (prev : Args) (toks : List String) (implOk : Bool) (out
           s!"chan={k.1} denom={k.2} outstanding={obsOut cur k.1 k.2} paid={mu.paidOut.at k} escrowed={mu.escrowed.at k}")) ++
       -- bad packets release nothing
       (if kind == "ibc.recv" && !fresh then
-        let bad : Bool := (a.get "raw").isSome ||
-          (match parseVoucher (a.str "denom") with
+        let bad : Bool := undec ||
+          (match parseVoucher rdenom with
            | none => true
            | some (p, c, d) => p != a.str "sport" || c != a.str "schan" || amt > obsOut prev (a.str "chan") d.render)
         if bad && (ackS == "success" || prev.str "hold" != cur.str "hold" || prev.str "bal" != cur.str "bal") then
@@ -525,11 +575,11 @@ def monitorOp (mu : Mon) (prev : Args) (toks : List String) (implOk : Bool) (out
              let d := (firstDiff prev cur).map (fun x => x.1)
              [mk "C12" "C12/error-ack-changed-state" s!"field={d.getD "?"}"])
          else if ackS == "success" then
-           match parseVoucher (a.str "denom") with
+           match parseVoucher rdenom with
            | none => [mk "C12" "C12/success-ack-unparsed" "success ack for a denom without prefix"]
            | some (_, _, d) =>
              let c := a.str "chan"; let ds := d.render
-             let rcv := (parseAddr (a.str "rcv")).2
+             let rcv := rrcv
              let col := idxOf allD ds
              (if obsOut cur c ds + amt == obsOut prev c ds then [] else
                [mk "C12" "C12/success-ack-balance" s!"outstanding {obsOut prev c ds}->{obsOut cur c ds} amt={amt}"]) ++
@@ -552,7 +602,17 @@ def monitorOp (mu : Mon) (prev : Args) (toks : List String) (implOk : Bool) (out
           let expect := s!"{a.str "chan"}/{slashEnc denom}/{amount}/{sender}/{a.str "to"}/{optStrStr (a.optStr "memo")}/{mu.blk.time + (tmo.getD 0) * 1000000000}"
           if sentL == [expect] && amount ≤ U64_MAX && amount != 0 then [] else
             [mk "C12" "C12/transfer-packet" s!"sent={out.str "sent"} expected={expect}"])
-       else [])
+       else []) ++
+      -- the acknowledgement bytes are `ack_success()` or a canonical `{"error":"<text>"}`, in agreement with their class
+      (if fresh || !implOk || !(kind == "ibc.recv" || kind == "ibc.ack" || kind == "ibc.timeout") then [] else
+        match out.get "ackraw" with
+        | none => []
+        | some hx =>
+          let cls := if hx == "-" then "-" else
+            match Json.ofHex hx with
+            | some bytes => renderAck (Ics20Wire.ackClass bytes)
+            | none => "?"
+          if cls == ackS then [] else [mk "C12" "C12/ack-wire-format" s!"ack={ackS} bytes={cls}"])
     -- ---------- C18
     let f18 := if fresh then [] else
       let pa := obsAllow prev; let ca := obsAllow cur
